@@ -45,7 +45,7 @@ PROP = {
                    "it spends, all inputs of the request exactly once; a request given up with ErrNotEnoughBudget "
                    "although the budgets attached to its inputs cover rate x size counts as ceiling not reached "
                    "(regroup_ceiling). The populations carry the same optional input attributes (relative timelocks, "
-                   "unconfirmed parents incl. shared ones and anchors) as the publisher's. Lifecycle: 1.6e4 / 1.2e6 "
+                   "unconfirmed parents incl. shared ones and anchors) as the publisher's. Lifecycle: 1.6e4 / 2.4e6 "
                    "generated populations (as regroup's) over 9-30 blocks in which every input enters through the real "
                    "SweepInput (optionally with a starting fee rate, or with an own earlier sweep in the mempool + "
                    "sweeper store: decideRBFInfo), at the start or in a later block, incl. deadlines at / behind the "
@@ -217,8 +217,84 @@ PROP = {
             "files": ["sweep/c18_test.go", "sweep/c18life_test.go"],
             "shards": {"quick": 8, "thorough": 16},
             "floors": {
-                "quick": {},
-                "thorough": {},
+                "quick": {
+                    "cases": 8000, "regroup_blocks": 110000, "regroup_inputs": 39000, "regroup_requests": 69000,
+                    "regroup_requests_in_later_rounds": 56000, "regroup_requests_with_retried_input": 46000,
+                    "regroup_requests_multi_input": 11000, "regroup_requests_with_tx": 32000,
+                    "regroup_requests_with_wallet_topup": 14000, "regroup_requests_with_unconf_parent": 15000,
+                    "regroup_txs_of_later_rounds": 99000, "regroup_results_Published": 28000,
+                    "regroup_results_Replaced": 56000, "regroup_results_Failed": 41000,
+                    "regroup_results_Confirmed": 3100, "regroup_results_UnknownSpend": 8300,
+                    "regroup_results_Fatal": 3400, "life_sweep_input_calls": 50000, "life_update_params_calls": 6700,
+                    "life_reoffers_Init": 3100, "life_reoffers_Published": 4500, "life_reoffers_PublishFailed": 1400,
+                    "life_reoffers_PendingPublish": 83, "life_updates_Init": 2000, "life_updates_Published": 3000,
+                    "life_updates_PublishFailed": 940, "life_offers_after_give_up": 900,
+                    "life_inputs_offered_with_starting_rate": 7200, "life_inputs_with_own_sweep_in_mempool": 3600,
+                    "life_own_sweeps_confirmed": 3100, "life_own_multi_input_sweeps_confirmed": 960,
+                    "life_earlier_own_sweeps_confirmed": 1000, "life_third_party_spends": 7700,
+                    "life_partial_own_and_third_party_spends": 160, "life_spend_notifications_handled": 9200,
+                    "life_signer_failures": 2100, "life_non_fee_failure_at_bump": 2700,
+                    "life_non_fee_failure_after_successful_bump": 2000,
+                    "life_requests_retrying_after_non_fee_bump_failure": 2700,
+                    "life_answers_initial_testmempoolaccept_toolong": 500,
+                    "life_answers_initial_testmempoolaccept_other": 510,
+                    "life_answers_first_bump_testmempoolaccept_toolong": 220,
+                    "life_answers_first_bump_testmempoolaccept_other": 200,
+                    "life_answers_first_bump_testmempoolaccept_minrelay": 140,
+                    "life_answers_first_bump_testmempoolaccept_mempoolmin": 140,
+                    "life_answers_first_bump_testmempoolaccept_insufficient": 210,
+                    "life_answers_later_bump_testmempoolaccept_toolong": 590,
+                    "life_answers_later_bump_testmempoolaccept_other": 580,
+                    "life_answers_later_bump_testmempoolaccept_minrelay": 370,
+                    "life_answers_later_bump_testmempoolaccept_mempoolmin": 420,
+                    "life_answers_later_bump_testmempoolaccept_insufficient": 590,
+                    "life_answers_later_bump_testmempoolaccept_missing": 390,
+                    "life_answers_first_bump_publish_other": 100, "life_answers_later_bump_publish_other": 290,
+                    "oracle_regroup_monotone_evals": 290000, "oracle_regroup_monotone_over_time_evals": 270000,
+                    "regroup_monotone_ceiling_corner_evals": 16000, "oracle_regroup_budget_evals": 220000,
+                    "oracle_regroup_inputs_evals": 220000, "oracle_life_maxrate_evals": 220000,
+                    "oracle_life_dust_evals": 220000, "oracle_life_ceiling_evals": 90000,
+                    "life_cases_with_ceiling_check": 6100, "oracle_regroup_gave_up_evals": 3},
+                "thorough": {
+                    "cases": 1200000, "regroup_blocks": 16500000, "regroup_inputs": 5850000,
+                    "regroup_requests": 10350000, "regroup_requests_in_later_rounds": 8400000,
+                    "regroup_requests_with_retried_input": 6900000, "regroup_requests_multi_input": 1650000,
+                    "regroup_requests_with_tx": 4800000, "regroup_requests_with_wallet_topup": 2100000,
+                    "regroup_requests_with_unconf_parent": 2250000, "regroup_txs_of_later_rounds": 14850000,
+                    "regroup_results_Published": 4200000, "regroup_results_Replaced": 8400000,
+                    "regroup_results_Failed": 6150000, "regroup_results_Confirmed": 465000,
+                    "regroup_results_UnknownSpend": 1245000, "regroup_results_Fatal": 510000,
+                    "life_sweep_input_calls": 7500000, "life_update_params_calls": 1005000,
+                    "life_reoffers_Init": 465000, "life_reoffers_Published": 675000,
+                    "life_reoffers_PublishFailed": 210000, "life_reoffers_PendingPublish": 12450,
+                    "life_updates_Init": 300000, "life_updates_Published": 450000,
+                    "life_updates_PublishFailed": 141000, "life_offers_after_give_up": 135000,
+                    "life_inputs_offered_with_starting_rate": 1080000,
+                    "life_inputs_with_own_sweep_in_mempool": 540000, "life_own_sweeps_confirmed": 465000,
+                    "life_own_multi_input_sweeps_confirmed": 144000, "life_earlier_own_sweeps_confirmed": 150000,
+                    "life_third_party_spends": 1155000, "life_partial_own_and_third_party_spends": 24000,
+                    "life_spend_notifications_handled": 1380000, "life_signer_failures": 315000,
+                    "life_non_fee_failure_at_bump": 405000, "life_non_fee_failure_after_successful_bump": 300000,
+                    "life_requests_retrying_after_non_fee_bump_failure": 405000,
+                    "life_answers_initial_testmempoolaccept_toolong": 75000,
+                    "life_answers_initial_testmempoolaccept_other": 76500,
+                    "life_answers_first_bump_testmempoolaccept_toolong": 33000,
+                    "life_answers_first_bump_testmempoolaccept_other": 30000,
+                    "life_answers_first_bump_testmempoolaccept_minrelay": 21000,
+                    "life_answers_first_bump_testmempoolaccept_mempoolmin": 21000,
+                    "life_answers_first_bump_testmempoolaccept_insufficient": 31500,
+                    "life_answers_later_bump_testmempoolaccept_toolong": 88500,
+                    "life_answers_later_bump_testmempoolaccept_other": 87000,
+                    "life_answers_later_bump_testmempoolaccept_minrelay": 55500,
+                    "life_answers_later_bump_testmempoolaccept_mempoolmin": 63000,
+                    "life_answers_later_bump_testmempoolaccept_insufficient": 88500,
+                    "life_answers_later_bump_testmempoolaccept_missing": 58500,
+                    "life_answers_first_bump_publish_other": 15000, "life_answers_later_bump_publish_other": 43500,
+                    "oracle_regroup_monotone_evals": 43500000, "oracle_regroup_monotone_over_time_evals": 40500000,
+                    "regroup_monotone_ceiling_corner_evals": 2400000, "oracle_regroup_budget_evals": 33000000,
+                    "oracle_regroup_inputs_evals": 33000000, "oracle_life_maxrate_evals": 33000000,
+                    "oracle_life_dust_evals": 33000000, "oracle_life_ceiling_evals": 13500000,
+                    "life_cases_with_ceiling_check": 915000, "oracle_regroup_gave_up_evals": 450},
             },
         },
     ],
